@@ -423,3 +423,50 @@ def replay_threads(index, ob, seed, saved=None):
         return _r(True, input={"schedule": "A.set_document_context ; B.set_document_context ; A renders ; B renders", "documents": ["red", "blue"]},
                   observed=f"thread results differ from sequential results for {bad}")
     return _r(False)
+
+
+# ---- C13 -------------------------------------------------------------------------------------------
+def replay_grouping(index, ob, seed, saved=None):
+    """Key sequences over a small alphabet incl. null, 1-2 group_by levels: suppression vs the hierarchical-key rule, through the
+    real GroupingService; non-contiguous orders must raise ValueError."""
+    import itertools, polars as pl
+    gs = index.real_module("rtflite.services.grouping_service").GroupingService()
+    alpha = ["A", "B", None]
+
+    def expected(cols):
+        n = len(cols[0])
+        out = [list(c) for c in cols]
+        for l in range(len(cols)):
+            for i in range(1, n):
+                if all(cols[m][i] == cols[m][i - 1] for m in range(l + 1)):
+                    out[l][i] = None
+        return out
+
+    def contiguous(keys):
+        seen, prev = set(), object()
+        for k in keys:
+            if k != prev:
+                if k in seen:
+                    return False
+                seen.add(k)
+                prev = k
+        return True
+    for n in range(1, 5):
+        for g in itertools.product(alpha, repeat=n):
+            for h in ([None] if n > 3 else list(itertools.product(["x", "y", None], repeat=n))):
+                cols = [list(g)] + ([list(h)] if h is not None else [])
+                names = ["g", "h"][: len(cols)]
+                df = pl.DataFrame({nm: pl.Series(nm, c, dtype=pl.Utf8) for nm, c in zip(names, cols)} | {"v": list(range(n))})
+                ok_sorted = contiguous(cols[0]) and (len(cols) == 1 or contiguous(list(zip(*cols))))
+                try:
+                    out = gs.enhance_group_by(df, names)
+                except ValueError:
+                    if ok_sorted:
+                        return _r(True, input={"columns": dict(zip(names, cols))}, observed="ValueError for contiguous keys")
+                    continue
+                if not ok_sorted:
+                    return _r(True, input={"columns": dict(zip(names, cols))}, observed="non-contiguous keys accepted")
+                got = [out[nm].to_list() for nm in names]
+                if got != expected(cols) or out["v"].to_list() != list(range(n)):
+                    return _r(True, input={"columns": dict(zip(names, cols))}, observed=got, expected=expected(cols))
+    return _r(False)
